@@ -40,9 +40,8 @@ def shouldCopy (k : Str) (v : Option Str) (invalid : List (Nat × List Str)) (be
     if b = bCOPY then .ok true
     else if b = bIGNORE then .ok false
     else if b = bUNLESS then
-      match v with
-      | none => .error .attributeError
-      | some s => if strip s = defaultProperty k then .ok false else .error (.invalidProperty k)
+      -- `(value or "").strip()`: a key-only parameter (None) is compared like the empty string
+      if strip (v.getD []) = defaultProperty k then .ok false else .error (.invalidProperty k)
     else .error (.invalidProperty k)
 
 /-- `SMChart.__setitem__` guard / plain `OrderedDict.__setitem__` -/
@@ -58,12 +57,18 @@ def copyProperties (smChartTarget : Bool) (source : Dict) (output : Dict) (inval
 def hasNegative (rows : List BVRow) : Bool :=
   rows.any fun r => match parseDecimal r.value with | some q => decide (q < 0) | none => false
 
+/-- every value token is a decimal literal the model can read (`Decimal(value)` succeeds) -/
+def valuesParse (rows : List BVRow) : Bool := rows.all fun r => (parseDecimal r.value).isSome
+
 /-- `_convert_warps` -/
 def convertWarps (src : AnySimfile) : Except CErr Unit :=
   if !src.isSSC then
     match beatValuesFromStr (attrGet .smSimfile src.props ['b','p','m','s']),
           beatValuesFromStr (attrGet .smSimfile src.props ['s','t','o','p','s']) with
-    | some b, some s => if hasNegative b || hasNegative s then .error .notImplemented else .ok ()
+    | some b, some s =>
+      -- `Decimal(value)` of every row runs while the lists are built, before any sign is looked at
+      if !(valuesParse b && valuesParse s) then .error .valueError
+      else if hasNegative b || hasNegative s then .error .notImplemented else .ok ()
     | _, _ => .error .valueError
   else
     -- `len(BeatValues(source.warps))`: BeatValues is a UserList, so this is the length of the WARPS *string*
